@@ -24,6 +24,10 @@ def main():
             from .check_sweep import run_property
 
             sys.exit(run_property(prop, a.tier, seeds, ops))
+        if prop == "C12":
+            from .check_c12 import run
+
+            sys.exit(run(a.tier))
         if prop == "C19":
             from .check_c19 import run
 
